@@ -312,10 +312,11 @@ fn judge(
             });
         }
     }
-    // detection time of the late interface: first interface poll at or after it appeared
+    // detection time of the late interface: first interface poll after it appeared (an interface
+    // that appears in the very millisecond of a poll may be seen by that poll or by the next one)
     let late_detect = late_at.map(|a| {
         let mut t = T0 + 5000;
-        while t < a {
+        while t <= a {
             t += 5000;
         }
         t
